@@ -46,6 +46,10 @@ def history(rng, d, icvn):
             for s in range(ns):
                 h.append(docgen.seg(d, 'ST', '837', '%04d' % scns[s]))
                 for _ in range(rng.randint(0, 4)):
+                    if rng.random() < 0.12:
+                        # a segment that carries no data at all (bare id, or separators only): still a segment, written and counted
+                        h.append(rng.choice(['REF', 'NTE', 'N3']) + d[1] * rng.choice([0, 1, 2]))
+                        continue
                     h.append(docgen.seg(d, rng.choice(['REF', 'NM1', 'HL', 'LX', 'CLM']), rng.choice(['87', '1', '']),
                                         ['A', 'B'] if rng.random() < 0.2 else 'X%d' % rng.randint(0, 9)))
                 if rng.random() < 0.6 or s < ns - 1:
